@@ -22,6 +22,7 @@ IsErr(o)     == Has(o, "err")
 IsPanic(o)   == Has(o, "panic")
 IsTimeout(o) == Has(o, "timeout")
 IsSkip(o)    == Has(o, "skip")
+IsAbort(o)   == Has(o, "abort")            \* the worker process died while running the item (signal / abort / exit)
 Hx(s)        == HexToBytes(s)
 
 D(props, reason, detail) == [props |-> props, reason |-> reason, detail |-> detail]
@@ -30,6 +31,7 @@ D(props, reason, detail) == [props |-> props, reason |-> reason, detail |-> deta
 CrashDevs(o) ==
   IF IsPanic(o) THEN {D({"C17"}, "panic", o.panic)}
   ELSE IF IsTimeout(o) THEN {D({"C17"}, "timeout", "")}
+  ELSE IF IsAbort(o) THEN {D({"C17"}, "abort", o.abort)}
   ELSE {}
 
 -----------------------------------------------------------------------------
@@ -80,7 +82,7 @@ JudgeTxSign(e) ==
                   \cup (IF mm # {} /\ cls = "either" THEN {D({"C13"}, "open_spelling_not_exact", "")} ELSE {}))
           ELSE IF IsErr(o) THEN
             (IF cls = "accept" THEN {D({"C13", "C06"}, "rejected_wellformed", o.err)} ELSE {})
-          ELSE IF IsPanic(o) \/ IsTimeout(o) THEN
+          ELSE IF IsPanic(o) \/ IsTimeout(o) \/ IsAbort(o) THEN
             \* a crash where the spec demands an answer is also a functional deviation
             (IF vOpen THEN {D({"C11"}, "v_overflow_crash", "")}
              ELSE IF cls = "accept" THEN {D({"C06"}, "crash_on_wellformed", "")}
